@@ -310,6 +310,120 @@ def info_transform_shape(pre):
     return shape, transposed, diag
 
 
+def _scan_loop(f, fname):
+    """the `for` loop of an archive scan: the one whose body appends to `to_read`"""
+    loops = [n for n in ast.walk(f) if isinstance(n, ast.For) and any(
+        isinstance(m, ast.Call) and isinstance(m.func, ast.Attribute) and m.func.attr == 'append'
+        and isinstance(m.func.value, ast.Name) and m.func.value.id == 'to_read' for m in ast.walk(n))]
+    if len(loops) != 1:
+        raise ValueError(f'{fname}: expected one scan loop appending to to_read, found {len(loops)}')
+    return loops[0]
+
+
+def selection_facts(base):
+    """The `limit` handling of the batch reads:
+    * per archive scan (`parallel_read_archive`, `BaseReader.read_tar`): the test of the `if …limit…: break` statement and
+      where it sits in the loop body ('first' statement / 'last' / 'middle'), and what the loop appends to `to_read`;
+    * `read_directory`: the expression the integer limit is applied with;
+    * per container: the membership test a list of file names is filtered with."""
+    int_limit, collects, names = [], [], []
+    fns = [('read_directory', 'BaseReader'), ('parallel_read_archive', None), ('read_tar', 'BaseReader')]
+    for fname, cls in fns:
+        f = _func(base, fname, cls)
+        if fname != 'read_directory':
+            loop = _scan_loop(f, fname)
+            brk = [(i, st) for i, st in enumerate(loop.body) if isinstance(st, ast.If) and 'limit' in ast.unparse(st.test)
+                   and len(st.body) == 1 and isinstance(st.body[0], ast.Break) and not st.orelse]
+            all_brk = [n for n in ast.walk(loop) if isinstance(n, ast.Break)]
+            if len(brk) != 1 or len(all_brk) != 1:
+                raise ValueError(f'{fname}: expected exactly one `if <limit test>: break` directly in the scan loop')
+            i, st = brk[0]
+            pos = 'first' if i == 0 else ('last' if i == len(loop.body) - 1 else 'middle')
+            int_limit.append((fname, ast.unparse(st.test), pos))
+            app = {ast.unparse(m.args[0]) for m in ast.walk(loop) if isinstance(m, ast.Call) and isinstance(m.func, ast.Attribute)
+                   and m.func.attr == 'append' and isinstance(m.func.value, ast.Name) and m.func.value.id == 'to_read'}
+            if len(app) != 1:
+                raise ValueError(f'{fname}: the scan loop appends different things to to_read: {sorted(app)}')
+            collects.append((fname, app.pop()))
+        # `isinstance(limit, list)` branch: a list comprehension with one condition
+        hit = [n for n in ast.walk(f) if isinstance(n, ast.If) and ast.unparse(n.test).replace(' ', '') == 'isinstance(limit,list)']
+        if len(hit) != 1 or len(hit[0].body) != 1 or not isinstance(hit[0].body[0], ast.Assign) \
+                or not isinstance(hit[0].body[0].value, ast.ListComp):
+            raise ValueError(f'{fname}: `isinstance(limit, list)` branch not recognised')
+        comp = hit[0].body[0].value
+        if len(comp.generators) != 1 or len(comp.generators[0].ifs) != 1 or ast.unparse(comp.elt) != ast.unparse(comp.generators[0].target):
+            raise ValueError(f'{fname}: list-of-names filter not recognised: ' + ast.unparse(comp))
+        names.append((fname, ast.unparse(comp.generators[0].ifs[0])))
+    rd = _func(base, 'read_directory', 'BaseReader')
+    hit = [n for n in ast.walk(rd) if isinstance(n, ast.If) and ast.unparse(n.test).replace(' ', '') == 'isinstance(limit,int)']
+    if len(hit) != 1 or len(hit[0].body) != 1 or not isinstance(hit[0].body[0], ast.Assign):
+        raise ValueError('read_directory: `isinstance(limit, int)` branch not recognised')
+    dir_int = ast.unparse(hit[0].body[0].value)
+    return int_limit, collects, names, dir_int
+
+
+def pre_valid_unwraps(pre):
+    """PrecomputedReader.is_valid_file: [(class tested with isinstance(file, …), expression `file` is replaced with)]"""
+    f = _func(pre, 'is_valid_file', 'PrecomputedReader')
+    out = []
+    for n in ast.walk(f):
+        if isinstance(n, ast.If) and isinstance(n.test, ast.Call) and ast.unparse(n.test.func) == 'isinstance' \
+                and ast.unparse(n.test.args[0]) == 'file':
+            asg = [st for st in n.body if isinstance(st, ast.Assign) and ast.unparse(st.targets[0]) == 'file']
+            if len(asg) != 1:
+                raise ValueError('PrecomputedReader.is_valid_file: isinstance branch without `file = …`')
+            v = asg[0].value
+            if isinstance(v, ast.Call) and ast.unparse(v.func) == 'str' and len(v.args) == 1:
+                v = v.args[0]
+            out.append((ast.unparse(n.test.args[1]), ast.unparse(v)))
+    return out
+
+
+def h5_attr_facts(h5):
+    """Guards of the raw-representation attribute writes of H5WriterV1 and the array branch of parse_add_units:
+    [(writer, test guarding `…attrs['units_nm'] = …`)], [(writer, test guarding `…attrs['soma'] = …`)],
+    test guarding `grp.attrs['neuron_name'] = …`, expression assigned to `neuron.units` under `isinstance(units, np.ndarray)`."""
+    def guard(fn, key):
+        hits = []
+        for n in ast.walk(fn):
+            if isinstance(n, ast.If):
+                for st in n.body:
+                    if isinstance(st, ast.Assign) and isinstance(st.targets[0], ast.Subscript) \
+                            and isinstance(st.targets[0].slice, ast.Constant) and st.targets[0].slice.value == key \
+                            and ast.unparse(st.targets[0].value).endswith('.attrs'):
+                        hits.append(ast.unparse(n.test))
+        unguarded = [st for st in fn.body if isinstance(st, ast.Assign) and isinstance(st.targets[0], ast.Subscript)
+                     and isinstance(st.targets[0].slice, ast.Constant) and st.targets[0].slice.value == key]
+        if len(hits) != 1 or unguarded:
+            raise ValueError(f'{fn.name}: expected exactly one guarded write of attrs[{key!r}], found {hits}')
+        return hits[0]
+    writers = ['write_treeneuron', 'write_dotprops', 'write_meshneuron']
+    units = [(w, guard(_func(h5, w, 'H5WriterV1'), 'units_nm')) for w in writers]
+    soma = [(w, guard(_func(h5, w, 'H5WriterV1'), 'soma')) for w in writers]
+    name = guard(_func(h5, 'get_neuron_group', 'H5WriterV1'), 'neuron_name')
+    pu = _func(h5, 'parse_add_units', 'H5ReaderV1')
+    arr = []
+    for n in ast.walk(pu):
+        if isinstance(n, ast.If) and ast.unparse(n.test).replace(' ', '') == 'isinstance(units,np.ndarray)':
+            arr += [ast.unparse(st.value) for st in n.body if isinstance(st, ast.Assign) and ast.unparse(st.targets[0]) == 'neuron.units']
+    if len(arr) != 1:
+        raise ValueError('H5ReaderV1.parse_add_units: ndarray branch not recognised')
+    return units, soma, name, arr[0]
+
+
+def json_members_checked(js):
+    """write_json raises TypeError for a list member that is not a TreeNeuron (a loop over `x` before anything is written)"""
+    w = _func(js, 'write_json')
+    for n in ast.walk(w):
+        if isinstance(n, ast.For) and ast.unparse(n.iter) == 'x':
+            for st in n.body:
+                if isinstance(st, ast.If) and ast.unparse(st.test).replace(' ', '') == \
+                        f'notisinstance({ast.unparse(n.target)},core.TreeNeuron)' and any(
+                        isinstance(r, ast.Raise) and 'TypeError' in ast.unparse(r) for r in st.body):
+                    return True
+    return False
+
+
 def generate(repo: Path):
     io = Path(repo) / 'navis' / 'io'
     base, pre, nr = (ast.parse((io / f).read_text()) for f in ('base.py', 'precomputed_io.py', 'nrrd_io.py'))
@@ -319,7 +433,12 @@ def generate(repo: Path):
     calls, guarded, merges = info_calls(pre)
     contains, equals, ends, hidden = valid_file_literals(pre, base)
     keep, prefix, idkey, special, tables = json_keys(js)
-    h5map = h5_parallel_map(ast.parse((io / 'hdf_io.py').read_text()))
+    h5 = ast.parse((io / 'hdf_io.py').read_text())
+    h5map = h5_parallel_map(h5)
+    int_limit, collects, names_test, dir_int = selection_facts(base)
+    unwraps = pre_valid_unwraps(pre)
+    h5units, h5soma, h5name, h5arr = h5_attr_facts(h5)
+    js_checked = json_members_checked(js)
     tshape, ttrans, tdiag = info_transform_shape(pre)
 
     def cls(c):
@@ -371,9 +490,29 @@ def jsonPrivatePrefix : String := {_s(prefix)}
 def jsonIdKey : String := {_s(idkey)}
 def jsonReadSkipsSetattr : List String := {_lst(special)}
 def jsonReadTables : List String := {_lst(tables)}
+/-- `write_json`: every member of a NeuronList is tested for `TreeNeuron` (TypeError otherwise). -/
+def jsonMembersChecked : Bool := {_b(js_checked)}
+
+/-- The integer `limit` of the archive scans: (function, test of the `if …: break`, position of that statement in the loop
+body); what the scan appends to `to_read`; `read_directory`'s integer limit; the filter applied for a list of names. -/
+def archiveIntLimit : List (String × String × String) := {_lst(int_limit, lambda t: f'({_s(t[0])}, {_s(t[1])}, {_s(t[2])})')}
+def archiveCollects : List (String × String) := {_lst(collects, lambda t: f'({_s(t[0])}, {_s(t[1])})')}
+def dirIntLimit : String := {_s(dir_int)}
+def namesLimitTest : List (String × String) := {_lst(names_test, lambda t: f'({_s(t[0])}, {_s(t[1])})')}
+/-- `PrecomputedReader.is_valid_file`: (class of the entry object, expression its name is taken from). -/
+def preValidUnwraps : List (String × String) := {_lst(unwraps, lambda t: f'({_s(t[0])}, {_s(t[1])})')}
+
+/-- `H5WriterV1.write_*` (raw): the tests guarding the `units_nm` and `soma` attribute writes; `get_neuron_group`: the test
+guarding `neuron_name`; `H5ReaderV1.parse_add_units`: what `neuron.units` is set to for an array-valued `units_nm`. -/
+def h5UnitsGuards : List (String × String) := {_lst(h5units, lambda t: f'({_s(t[0])}, {_s(t[1])})')}
+def h5SomaGuards : List (String × String) := {_lst(h5soma, lambda t: f'({_s(t[0])}, {_s(t[1])})')}
+def h5NameGuard : String := {_s(h5name)}
+def h5ReaderArrayUnits : String := {_s(h5arr)}
 
 end Navis.Gen.IoReaders
 """
     meta = {'source': ['navis/io/*.py'], 'reader_classes': [c[0] for c in classes], 'nrrd_write_ops': [list(map(str, o)) for o in ops],
-            'info_calls': calls, 'json_keep': keep}
+            'info_calls': calls, 'json_keep': keep, 'archive_int_limit': int_limit, 'names_limit_test': names_test,
+            'pre_valid_unwraps': unwraps, 'h5_units_guards': h5units, 'h5_soma_guards': h5soma, 'h5_name_guard': h5name,
+            'h5_reader_array_units': h5arr, 'json_members_checked': js_checked}
     return 'IoReaders.lean', src, meta
